@@ -190,17 +190,27 @@ class LTSSMController(Elaboratable):
             Automatically handles any "on entry" conditions for the given state.
             """
 
-            # Clear our "time-in-state" counter, and some of our mode flags.
-            m.d.ss += [
-                cycles_in_state         .eq(0),
-                self.request_hot_reset  .eq(0)
-            ]
+            # A warm reset overrides every other way out of a state [USB 3.2r1: 7.5]: while reset is
+            # being signaled, the only state we may move to is Rx.Detect.Reset. (Without this, a transition
+            # requested later in the same state body would silently win over handle_warm_resets().)
+            if state == "Rx.Detect.Reset":
+                transition_allowed = Const(1)
+            else:
+                transition_allowed = ~self.in_usb_reset
 
-            # If we have any additional entry conditions for the given state, apply them.
-            if state in tasks_on_entry:
-                m.d.ss += tasks_on_entry[state]
+            with m.If(transition_allowed):
 
-            m.next = state
+                # Clear our "time-in-state" counter, and some of our mode flags.
+                m.d.ss += [
+                    cycles_in_state         .eq(0),
+                    self.request_hot_reset  .eq(0)
+                ]
+
+                # If we have any additional entry conditions for the given state, apply them.
+                if state in tasks_on_entry:
+                    m.d.ss += tasks_on_entry[state]
+
+                m.next = state
 
 
         def transition_on_timeout(timeout, *, to):
